@@ -289,13 +289,18 @@ void h_b_basic(void)
 #endif
 
 #if defined(VF_B) && VF_B == 2
-/* concat and swap over every pair of lengths */
+/* concat (VF_PAIR_OP 1) and swap (VF_PAIR_OP 2) over every pair of lengths; both when VF_PAIR_OP is not given */
+#ifndef VF_PAIR_OP
+#define VF_PAIR_OP 3
+#endif
 void h_b_pair(void)
 {
     int la, lb, k;
     for (la = 0; la <= VF_MAXLEN; la++) {
         for (lb = 0; lb <= 3; lb++) {
             struct cstl_slist a, b; int ra[VF_POOL], rb[VF_POOL];
+            (void)k;
+#if VF_PAIR_OP & 1
             vf_build(&a, ra, la, 0); vf_build(&b, rb, lb, 6);
             cstl_slist_concat(&a, &b);
             for (k = 0; k < lb; k++) ra[la + k] = rb[k];
@@ -305,6 +310,8 @@ void h_b_pair(void)
             vf_check_list(&b, rb, 1, "concat src is usable");
             cstl_slist_push_back(&a, ELEM(VF_X2)); ra[la + lb] = VF_X2;
             vf_check_list(&a, ra, la + lb + 1, "push_back after concat");
+#endif
+#if VF_PAIR_OP & 2
             /* swap, then push_back into both */
             vf_build(&a, ra, la, 0); vf_build(&b, rb, lb, 6);
             cstl_slist_swap(&a, &b);
@@ -320,6 +327,7 @@ void h_b_pair(void)
             vf_check_list(&b, rb, lb + 1, "swap back b");
             VF_ASSERT(cstl_slist_pop_front(&a) == ELEM(ra[0]), "slist: pop_front after swap returns the first element");
             vf_check_list(&a, ra + 1, la, "pop_front after swap");
+#endif
             VF_REACH(la == VF_MAXLEN && lb == 3, "longest pair exercised");
         }
     }
